@@ -10,6 +10,8 @@ import RpyModel.Reservoir
 import RpyProofs.Bridge
 import RpyModel.Codec
 
+set_option linter.unusedSectionVars false
+
 section
 variable {R : Type} [Field R] [ZeroTest R]
 
